@@ -63,6 +63,7 @@ type FnVerifier struct {
 	dry        bool
 	rootVars   map[string]TV
 	pending    []*pendingObl
+	ceils      map[string]Term
 }
 
 // frame is the execution of one function body (root or inlined).
@@ -84,6 +85,7 @@ type frame struct {
 	debug    map[*ssa.BasicBlock][]debugRef
 	deferred []*ssa.Defer
 	sortArg  *ssa.MakeInterface
+	deadMemo map[*ssa.Alloc]bool
 }
 
 type exit struct {
